@@ -1,6 +1,7 @@
 (* C02 - The parity reconstructor never produces wrong data. Pinned statements only. *)
 From Coq Require Import List NArith.
 Require Import Recon ReconProof.
+Require MRecon MReconSim.
 Import ListNotations.
 Open Scope N_scope.
 
@@ -25,5 +26,15 @@ Theorem c02_nonvacuous :
   Forall (consistent P 4 X) bl /\ In (Done 4) (snd (fst (run P 2 8 (init 4 1) bl))).
 Proof. exact c02_example. Qed.
 
+(* the executable model run by the `recon` correspondence stream (MRecon.run_case, the fault-aware reconstructor over the
+   instrumented storages, no fault armed) IS Recon.run: same results, same storage-call log, same final data store - so the
+   theorem above is about the very function whose output is compared with the implementation's *)
+Theorem c02_executable_model_is_recon : forall n0 cap vbits bs0 tbl blocks,
+  let '(t', rs, es) := Recon.run (MRecon.matrix_of n0 tbl) cap vbits (Recon.init n0 bs0) blocks in
+  let '(rs', evs', dat', _) := MRecon.run_case n0 cap vbits bs0 None tbl blocks in
+  map fst rs' = map (fun r => MRecon.Ok (MReconSim.res_of r)) rs /\ evs' = map MReconSim.ev_of es /\ dat' = map (Recon.dat t') (seq 0 n0).
+Proof. exact MReconSim.run_case_is_recon. Qed.
+
 Print Assumptions c02_recon_sound.
+Print Assumptions c02_executable_model_is_recon.
 Print Assumptions c02_nonvacuous.
